@@ -26,9 +26,16 @@ from vf import structural as S
 
 
 def known_match(known, oid):
+    """an OPEN finding listed for exactly this obligation; a finding the verifier reports under one id may also be met by a unit's native
+    search, whose id is listed under `native_ids` (an entry ending in `*` is a prefix: the id embeds the witness' size)"""
     for k in known:
-        if k.get("status") == "open" and k.get("obligation") == oid:
+        if k.get("status") != "open":
+            continue
+        if k.get("obligation") == oid:
             return k
+        for n in k.get("native_ids", []):
+            if n == oid or (n.endswith("*") and oid.startswith(n[:-1])):
+                return k
     return None
 
 
@@ -188,6 +195,9 @@ def run_property(pid, tier):
                 nid = "native-search.%s.%s:%s" % (u, x.get("fn"), clause)
                 if nid in seen_ids:
                     continue          # one report per (function, clause); the first witness is the replay
+                kf = known_match(known, nid)
+                if kf and kf.get("property") != pid and kf.get("property") in P.claimed():
+                    continue          # an open finding of another claimed property met in a shared unit: printed by that property's check
                 seen_ids.add(nid)
                 failed.append({"id": nid, "fn": x.get("fn"), "kind": "native-witness", "status": "failed", "backend": "native-search",
                                "where": w["target"], "message": "%s (expected: %s)" % (x.get("observed"), x.get("expected")), "unit": u, "verifier_output": json.dumps(x), "native_witness": x})
